@@ -111,6 +111,7 @@ ENTRIES = [
     ('mir_i8', mir('i8')), ('mir_i64', mir('i64')), ('mir_u128', mir('u128')), ('mir_i128', mir('i128')),
     ('mir_bool', mir('bool')), ('mir_char', mir('char')), ('mir_f32', mir('f32')), ('mir_wi32', mir('wi32')),
     ('sl_mir_i64', sl(mir('i64'))), ('opt_mir_char', opt(mir('char'))),
+    ('con_sl_cdc', con(sl(CDC))),
 ]
 
 # FlatStack<R, S> entries: name -> (region expression, index container)
